@@ -23,4 +23,5 @@ def run(report, tier, seed):
     external_names.run(report, tier, seed)
 
 
-replay = generic_replay
+def replay(rp):
+    return generic_replay(rp) if "obligation" in rp else external_names.replay(rp)
